@@ -88,7 +88,9 @@ class Len:
             elif isinstance(k, tuple) and k[0] == "ceil8":
                 tot += v * (-(-val[k[1]] // 8))
             elif isinstance(k, tuple) and k[0] == "S16":
-                tot += v * s16 * val[k[1]]
+                tot += v * 8 * val[k[1]]  # e.g. one astral + two BMP characters per name
+            elif isinstance(k, tuple) and k[0] == "CHARS":
+                tot += v * 3 * val[k[1]]
             else:
                 tot += v * val[k]
         return tot
@@ -175,7 +177,8 @@ class RecordAnalyzer:
                 if isinstance(inner, ast.Call) and attr_tail(inner) == "encode" and inner.args and isinstance(inner.args[0], ast.Constant) \
                         and str(inner.args[0].value).lower().replace("_", "-") == "utf-16le":
                     return Len.sym(("S16", "@elem"))
-                return None
+                # length (in characters / items) of some per-element value
+                return Len.sym(("CHARS", "@elem"))
             if nm == "bits_to_bytes" and e.args:
                 inner = self.value(e.args[0], st, per_elem_sym)
                 if inner is not None and len(inner.t) == 1:
@@ -416,10 +419,10 @@ class RecordAnalyzer:
                     sym = sel_sym or (next(iter(remaining.t)) if len(remaining.t) == 1 and isinstance(next(iter(remaining.t)), str) else None)
                     total = Len()
                     for k, cfc in v.t.items():
-                        if k == ("S16", "@elem"):
+                        if isinstance(k, tuple) and k[1] == "@elem":
                             if sym is None:
-                                raise AnalysisError("per-element encoded length summed over an unnamed multiplicity")
-                            total = total + Len({("S16", sym): cfc})
+                                raise AnalysisError("per-element length summed over an unnamed multiplicity")
+                            total = total + Len({(k[0], sym): cfc})
                         elif k == 1:
                             total = total + remaining.scale(cfc)
                         else:
